@@ -93,9 +93,13 @@ def payloads(rng, sig):
     named = [p for p in sig if p["kind"] in ("po", "pk", "ko") and not (p["dep"] and p["kind"] != "po")]
     exact = [(p["name"], 10 * p["name"] + 1) for p in named]
     outs = [None, [], exact]
+    extra = [(50, 501), (51, 511)]
     for i in range(len(exact)):
         outs.append(exact[:i] + exact[i + 1:])
-    extra = [(50, 501), (51, 511)]
+        # one parameter missing AND unknown keys in its place (producer / worker version skew): as long as, or longer
+        # than, the signature
+        outs.append(exact[:i] + exact[i + 1:] + extra[:1])
+        outs.append(extra + exact[:i] + exact[i + 1:])
     outs.append(exact + extra)
     outs.append(extra[:1] + exact)
     perm = exact + extra[:1]
